@@ -329,14 +329,14 @@ def _poynting_rules(ctx):
     S = NdArr((1, 3), [field_atom(f"S{i}") for i in range(3)], SP)
     from ..extlib import linear_op
 
-    for mode, direction, keep in itertools.product(("continuous", "pulse"), ("+", "-"), (False, True)):
+    for mode, direction, keep, axis in itertools.product(("continuous", "pulse"), ("+", "-"), (False, True), (0, 1, 2)):
         it2 = ctx.fresh_interp()
         stub_repo_calls(it2, {"_phasor_poynting_vector": lambda it_, a, k: S})
         if keep:
             weights = NdArr((3,), [field_atom(f"A{i}") for i in range(3)], SP)
         else:
-            weights = NdArr((), [field_atom("A2")], SP)
-        det = Obj(PP, {"direction": direction, "scaling_mode": mode, "keep_all_components": keep, "_cached_face_area_weights": weights, "fixed_propagation_axis": 2, "grid_shape": (Rat.atom("Nx"), Rat.atom("Ny"), 1)}, "pp")
+            weights = NdArr((), [field_atom(f"A{axis}")], SP)
+        det = Obj(PP, {"direction": direction, "scaling_mode": mode, "keep_all_components": keep, "_cached_face_area_weights": weights, "fixed_propagation_axis": axis, "grid_shape": tuple(1 if a == axis else 5 for a in range(3))}, "pp")
         flux = it2.call_method(det, "compute_poynting_flux", {"phasor": NdArr((1, 1, 6), [field_atom(c) for c in COMPS], SP)})
         sgn = -1 if direction == "-" else 1
         half = Fraction(1, 2) if mode == "continuous" else 1
@@ -346,7 +346,7 @@ def _poynting_rules(ctx):
             got = list(flux.data) if isinstance(flux, NdArr) else None
             ok = got is not None and len(got) == 3 and all(to_rat(g).equals(w) for g, w in zip(got, want))
         else:
-            want = [linear_op(f"sum[{tag}]", to_rat(field_atom("S2")) * to_rat(field_atom("A2"))) * sgn * half]
+            want = [linear_op(f"sum[{tag}]", to_rat(field_atom(f"S{axis}")) * to_rat(field_atom(f"A{axis}"))) * sgn * half]
             got = list(flux.data) if isinstance(flux, NdArr) else [flux]
             ok = len(got) == 1 and to_rat(got[0]).equals(want[0])
-        ctx.ob("R17.6", f"{PP.qualname}.compute_poynting_flux:{mode}:{direction}:{'all' if keep else 'single'}", ok, "flux = (1/2 in continuous mode) * sign(direction) * sum(S_axis * area)", [to_rat(g).fmt()[:120] for g in (got or [])], [w.fmt()[:120] for w in want])
+        ctx.ob("R17.6", f"{PP.qualname}.compute_poynting_flux:{mode}:{direction}:{'all' if keep else 'single'}:axis={axis}", ok, "flux = (1/2 in continuous mode) * sign(direction) * sum(S_axis * area) with the component of the propagation axis", [to_rat(g).fmt()[:120] for g in (got or [])], [w.fmt()[:120] for w in want])
